@@ -253,7 +253,7 @@ class InstanceFile:
 
                 # It's allowed to omit values here. The default needs to allow
                 # spaces as well.
-                parts = value.split(' ', 3)
+                parts = value.split(' ', 2)
                 name = parts[0]
                 var_type = ValueTypes.STRING
                 default = ''
